@@ -156,7 +156,7 @@ def conn_answers(o):
     for v in range(n):
         try:
             ans["v2v"].append(sorted(int(x) for x in c.vertex_to_vertices(v)))
-        except KeyError:
+        except Exception:  # noqa
             ans["v2v"].append(None)        # an isolated vertex has no entry
     if k >= 2:
         for f in o.faces:
@@ -164,7 +164,7 @@ def conn_answers(o):
         for v in range(n):
             try:
                 ans["v2f"].append(sorted(int(x) for x in c.vertex_to_faces(v)))
-            except KeyError:
+            except Exception:  # noqa
                 ans["v2f"].append(None)
     return ans
 
@@ -289,6 +289,8 @@ def combi(o, extra=None):
     return d
 
 
+CANON = [False]   # second attempt of a call whose non-canonical argument FORM was refused: plain python numbers, Vec, 3x3 array,
+                  # positional arguments (argument forms the property does not name may be refused)
 FORM = ["pos"]     # per case: how optional arguments are passed: "pos" | "kw" | "omit" (defaults left out, rest by keyword)
 NUMREP = ["py"]    # per case: representation of numbers / flags / counts: "py" | "np64" | "np32" | "mixed"
 VECFORM = ["vec"]  # per case: translation vectors as Vec | list | tuple | ndarray
@@ -296,8 +298,8 @@ ROTFORM = ["matrix"]
 
 
 def num(x):
-    v = int(x) if INTS[0] and float(x) == int(x) else float(x)
-    r = NUMREP[0]
+    v = int(x) if INTS[0] and float(x) == int(x) and not CANON[0] else float(x)
+    r = "py" if CANON[0] else NUMREP[0]
     if r == "py":
         return v
     if isinstance(v, int):
@@ -309,19 +311,19 @@ def num(x):
 
 def cnt(n):
     """a count / index argument"""
-    r = NUMREP[0]
+    r = "py" if CANON[0] else NUMREP[0]
     return int(n) if r == "py" else (np.int64(n) if r in ("np64", "mixed") else np.int32(n))
 
 
 def flag(b):
     """a boolean switch: bool, numpy bool, or the ints 0 / 1"""
-    r = NUMREP[0]
+    r = "py" if CANON[0] else NUMREP[0]
     return bool(b) if r == "py" else (np.bool_(b) if r == "np64" else int(bool(b)))
 
 
 def call(fn, required, optional):
     """fn(*required, <optional>) in the call form of the case. optional: [(name, value, default)]"""
-    f = FORM[0]
+    f = "pos" if CANON[0] else FORM[0]
     if f == "pos":
         return fn(*[v for _, v in required], *[v for _, v, _ in optional])
     if f == "kw":
@@ -349,7 +351,7 @@ def tparam(objs, p):
     v = param(objs, p)
     if isinstance(p, list) and p and p[0] == "slot":
         return v
-    f = VECFORM[0]
+    f = "vec" if CANON[0] else VECFORM[0]
     if f == "list":
         return [c.item() for c in v]
     if f == "tuple":
@@ -363,7 +365,7 @@ def rotarg(R):
     """the rotation in the form of the case: 3x3 ndarray, scipy Rotation object"""
     from scipy.spatial.transform import Rotation
     A = np.array(R, dtype=float)
-    if ROTFORM[0] == "object":
+    if ROTFORM[0] == "object" and not CANON[0]:
         return Rotation.from_matrix(A)
     return A
 
@@ -380,7 +382,14 @@ def run_case(case, scratch):
     VECFORM[0] = case.get("vecform", "vec")
     ROTFORM[0] = case.get("rotform", "matrix")
     M.config.complete_edges_from_faces = not case.get("no_edge_completion", False)
-    for n, op in enumerate(case["ops"]):
+    FORMED = ("from_arrays", "ring", "copy", "merge", "translate", "rotate", "rotate_euler", "scale", "scale_xyz", "normalize",
+              "flatten")
+    plain = (FORM[0] == "pos" and NUMREP[0] == "py" and VECFORM[0] == "vec" and ROTFORM[0] == "matrix")
+    n = -1
+    CANON[0] = False
+    while n + 1 < len(case["ops"]):
+        n += 1
+        op = case["ops"][n]
         name = op[0]
         new = None
         conn = None
@@ -509,7 +518,18 @@ def run_case(case, scratch):
             elif name == "merge":
                 srcinfo = [combi(objs[i]) for i in op[1]]
                 lst = [objs[i] for i in op[1]]
-                new = call(M.mesh.merge, [("mesh_list", tuple(lst) if FORM[0] == "kw" and lst else lst)], [])
+                if not lst:
+                    # a merge of nothing: the property does not speak about it - None, a refusal or an empty mesh are all fine
+                    try:
+                        new = M.mesh.merge(lst)
+                    except Exception as ex:  # noqa
+                        new, conn = None, {"raised": type(ex).__name__}
+                    if new is not None and len(slots(new)) > 0:
+                        raise RuntimeError("merge of an empty list returned a mesh with vertices")
+                    new = None
+                    info = None
+                else:
+                    new = call(M.mesh.merge, [("mesh_list", tuple(lst) if FORM[0] == "kw" and not CANON[0] else lst)], [])
                 if new is None:
                     if op[1]:
                         raise RuntimeError("merge of a non-empty list returned None")
@@ -518,13 +538,14 @@ def run_case(case, scratch):
                     info = combi(new)
                     info["src"] = srcinfo
             elif name == "translate":
-                r = call(T.translate, [("mesh", objs[op[1]]), ("tr", tparam(objs, op[2]))], [])
-                assert r is objs[op[1]]
+                call(T.translate, [("mesh", objs[op[1]]), ("tr", tparam(objs, op[2]))], [])
             elif name == "rotate":
                 call(T.rotate, [("mesh", objs[op[1]]), ("rot", rotarg(op[2]))], [("orig", param(objs, op[3]), None)])
             elif name == "rotate_euler":
                 # quarter turns about the fixed axes x, y, z (scipy "xyz"): exact matrices; op[2] = [a, b, c] in quarter turns
                 ang = [float(q) * np.pi / 2 for q in op[2]]
+                if CANON[0]:
+                    raise RuntimeError("no canonical form")     # handled by the caller: Euler angles may be refused
                 call(T.rotate, [("mesh", objs[op[1]]), ("rot", tuple(ang) if op[4] else list(ang))],
                      [("orig", param(objs, op[3]), None)])
             elif name == "bad":
@@ -539,8 +560,7 @@ def run_case(case, scratch):
                     elif op[1] == "translate_len":
                         T.translate(o, M.Vec(1., 2.))
                     elif op[1] == "from_arrays_index":
-                        n = o.shape[0]
-                        M.mesh.from_arrays(o, F=np.array([[0, 1, n]]))
+                        M.mesh.from_arrays(o, F=np.array([[0, 1, o.shape[0]]]))
                     elif op[1] == "from_arrays_cols":
                         M.mesh.from_arrays(np.zeros((3, 4)))
                     elif op[1] == "ring_small":
@@ -582,8 +602,20 @@ def run_case(case, scratch):
                 info = None
             back, shared = graph_state(objs)
             steps.append({"ok": True, "new": info if new is not None else None, "objs": snapshot(objs),
-                          "backrefs": back, "shared": shared, "conn": conn})
+                          "backrefs": back, "shared": shared, "conn": conn, "refused_form": CANON[0]})
+            CANON[0] = False
         except Exception as ex:  # noqa: an exception is an observation; the history stops
+            if name in FORMED and not CANON[0] and (not plain or name == "rotate_euler"):
+                # the argument FORM (keyword names, numpy scalars, list/tuple vectors, Rotation object, Euler angles) may be
+                # refused: the property does not name it. Same call again in the canonical form.
+                CANON[0] = True
+                n -= 1
+                continue
+            if name == "rotate_euler" and CANON[0]:
+                CANON[0] = False
+                steps.append({"ok": False, "err": [type(ex).__name__, str(ex)[:200]], "refused_form": True})
+                break
+            CANON[0] = False
             steps.append({"ok": False, "err": [type(ex).__name__, str(ex)[:200]]})
             break
     return steps
